@@ -21,7 +21,8 @@ func (c *base64Padder) pad(buf []byte) (int, error) {
 
 func (c *base64Padder) Read(buf []byte) (int, error) {
 	n, err := c.Reader.Read(buf)
-	c.count += n
+	// line breaks are not part of the encoding (the base64 reader skips them)
+	c.count += n - bytes.Count(buf[:n], []byte("\n")) - bytes.Count(buf[:n], []byte("\r"))
 
 	if err == io.EOF && c.count%4 != 0 {
 		return c.pad(buf)
